@@ -356,6 +356,7 @@ struct Gen {
     if (inf.nout) s.op.mask = (uint8_t)rng.below(1u << inf.nout);
     if (inf.nout && rng.chance(0.3)) s.op.variant |= (uint8_t)rng.below(4);
     if (rng.chance(0.3)) s.op.variant |= V_FRESH;
+    if ((op == OP_AVG_BIINV || op == OP_AVG || op == OP_AVG_FL || op == OP_AVG_FR) && rng.chance(0.5)) s.op.variant |= V_SUB;
     if (s.op.op == OP_COEFFS && rng.chance(0.5)) s.op.variant |= V_ALT;
     if (rng.chance(0.2) && (op == OP_INTERP_SLERP || op == OP_INTERP_CUBIC || op == OP_INTERP_SMOOTH || op == OP_T_SCALE ||
                             op == OP_TM_PLUSEQ || op == OP_TM_MINUSEQ)) s.op.variant |= V_ALT;
@@ -367,7 +368,6 @@ struct Gen {
     for (int op = 0; op < OP__END; ++op) {
       const OpInfo& inf = op_info(op);
       if (!inf.name || !inf.is_const || inf.draws_rand || !applicable(vt, op)) continue;
-      if (inf.cls == C_ALG && (op == OP_AVG_BIINV || op == OP_AVG || op == OP_AVG_FL || op == OP_AVG_FR || op == OP_DECASTELJAU)) continue;  // read the shared container, which a history may refill
       ops.push_back(op);
     }
     Step s = make_op(g, ops[rng.below((uint32_t)ops.size())], 0, 0, -1);
@@ -418,10 +418,38 @@ struct Gen {
 
   void generate(uint64_t seed, bool thorough) {
     plan.check = "C09"; plan.seed = seed;
-    int ngr = rng.chance(0.2) ? 2 : 1;
+    int ngr = rng.chance(0.25) ? 2 : 1;
     for (int i = 0; i < ngr; ++i) { const GroupVT* vt = group((int)rng.below(n_groups())); plan.groups.push_back(vt->name); vts.push_back(vt); }
+    // half of the two-group runs pair a group with its other-scalar twin (SO3f + SO3d, ...) holding the SAME
+    // (float-exact) coefficient values: what state shared across scalar types would need
+    bool twins = false;
+    if (ngr == 2 && rng.chance(0.5)) {
+      std::string n0 = vts[0]->name;
+      std::string tw = n0.substr(0, n0.size() - 1) + (n0[n0.size() - 1] == 'd' ? "f" : "d");
+      const GroupVT* t = group_by_name(tw.c_str());
+      if (t) { vts[1] = t; plan.groups[1] = t->name; twins = true; if (vts[0]->is_float == 0) { std::swap(vts[0], vts[1]); std::swap(plan.groups[0], plan.groups[1]); } }
+    }
+    std::vector<Step> first_pool;
     for (int g = 0; g < ngr; ++g) {
       const GroupVT* vt = vts[g];
+      if (twins && g == 1) {
+        // group 0 is the float twin: tangents and points are copied (float-exact values are valid for both scalars,
+        // so angles are bit-identical across the two types); elements are NOT: a quaternion that is unit-norm
+        // to float precision is not a valid double element
+        for (Step s : first_pool) {
+          s.group = 1; s.op.group = 1;
+          if (s.kind == ST_SETE) {
+            ElemSpec sp; sp.neg_hemisphere = rng.chance(0.3); sp.lin_lo = 1e-2; sp.lin_hi = 10;
+            spice_elem_spec(vt, rng, sp);
+            if (s.slot == 5) sp.angle = rng.chance(0.5) ? 0.0 : std::fabs(rng.logmag(1e-12, 1e-8));
+            double c[32]; gen_elem(vt, rng, sp, c);
+            s.vals.assign(c, c + vt->rep);
+          }
+          plan.steps.push_back(s);
+        }
+        continue;
+      }
+      const size_t pool_begin = plan.steps.size();
       for (int i = 0; i < vt->NE; ++i) {
         ElemSpec sp; sp.neg_hemisphere = rng.chance(0.3); sp.lin_lo = 1e-2; sp.lin_hi = 10;
         if (rng.chance(0.25)) sp.angle = rng.chance(0.3) ? 0.0 : std::fabs(rng.logmag(1e-10, 1e-5));
@@ -434,11 +462,27 @@ struct Gen {
         TanSpec sp; sp.angle = rng.chance(0.25) ? std::fabs(rng.logmag(1e-10, 1e-6)) : rng.uniform(0.01, 3); sp.lin_lo = 1e-2; sp.lin_hi = 5;
         if (i == 3) { sp.angle = rng.chance(0.5) ? 0.0 : std::fabs(rng.logmag(1e-12, 1e-8)); }            // tiny tangent for the sandwiches
         double t[32]; gen_tan(vt, rng, sp, t);
+        if (i != 3 && rng.chance(0.3)) {
+          // rotation about one coordinate axis by a dyadic angle: the angle has the same bits whether the norm is
+          // taken in float or in double (what a memo keyed on the angle and shared between scalar types would need)
+          for (int k = 0; k < vt->n_ang; ++k) {
+            const double ang = (1 + (int)rng.below(40)) / 16.0;
+            const int ax = vt->ang[k].len == 3 ? (int)rng.below(3) : 0;
+            for (int q = 0; q < vt->ang[k].len; ++q) t[vt->ang[k].off + q] = (q == ax) ? ang : 0.0;
+          }
+        }
         plan.steps.push_back(make_set(ST_SETT, g, i, t, vt->dof));
       }
       for (int i = 0; i < vt->NP; ++i) { double p[32]; gen_pt(vt, rng, 1e-2, 10, p); plan.steps.push_back(make_set(ST_SETP, g, i, p, vt->dim)); }
       Step v; v.kind = ST_SETVEC; v.group = (uint8_t)g; int n = 2 + rng.below(3); for (int i = 0; i < n; ++i) v.vals.push_back(i);
       plan.steps.push_back(v);
+      // element 2 (protected, like element 0) := a close neighbour of element 0 (tiny relative rotation, O(1) relative translation)
+      {
+        double nb[32];
+        perturb_elem(vt, rng, plan.steps[pool_begin].vals.data(), rng.chance(0.5) ? std::fabs(rng.logmag(1e-10, 1e-7)) : std::fabs(rng.logmag(1e-7, 1e-3)), 1.0, nb);
+        plan.steps.push_back(make_set(ST_SETE, g, 2, nb, vt->rep));
+      }
+      if (g == 0) first_pool.assign(plan.steps.begin() + pool_begin, plan.steps.end());
     }
     // probes
     std::vector<Step> probes;
@@ -492,8 +536,13 @@ struct Gen {
       if (!rng.chance(0.5)) continue;
       const OpInfo& inf = op_info(p.op.op);
       Step mid = p; mid.op.thread = R_HIST;
-      if (inf.cls == C_ELEM) mid.op.a = 5; else if (inf.cls == C_TAN) mid.op.a = 3; else continue;
-      if (rng.chance(0.3)) { if (inf.arg2 == A_ELEM) mid.op.b = 5; if (inf.arg2 == A_TAN) mid.op.b = 3; }
+      if (twins && rng.chance(0.6)) {
+        // the very same call on the other-scalar twin (same slots, hence bit-identical angles and coefficients)
+        mid.group = (uint8_t)(1 - p.group); mid.op.group = mid.group;
+      } else {
+        if (inf.cls == C_ELEM) mid.op.a = 5; else if (inf.cls == C_TAN) mid.op.a = 3; else continue;
+        if (rng.chance(0.3)) { if (inf.arg2 == A_ELEM) mid.op.b = 5; if (inf.arg2 == A_TAN) mid.op.b = 3; }
+      }
       size_t pos = seq.empty() ? 0 : rng.below((uint32_t)seq.size() + 1);
       Step trio[3] = {p, mid, p};
       seq.insert(seq.begin() + pos, trio, trio + 3);
